@@ -2,81 +2,13 @@
     interleaving, at most one writer is inside a write, the close frame is written at most once and CloseFunc called
     as often, every writer's frames are on the wire in its program order, and the system is never deadlocked; the two
     slips the discipline excludes are refuted by witnesses. *)
-From GV Require Import Base.Prelude Model.WsLock.
+From GV Require Import Base.Prelude Base.Threads Model.WsLock.
 Open Scope nat_scope.
 Open Scope list_scope.
 
-(** ** lists *)
-Lemma upd_length {A} i (x : A) l : List.length (upd i x l) = List.length l.
-Proof. revert i; induction l as [|y l IH]; intros [|i]; cbn; auto. Qed.
-
-Lemma nth_upd_same {A} i (x y : A) l : nth_error l i = Some y -> nth_error (upd i x l) i = Some x.
-Proof. revert i; induction l as [|z l IH]; intros [|i]; cbn; try discriminate; auto. Qed.
-
-Lemma nth_upd_other {A} i j (x : A) l : i <> j -> nth_error (upd i x l) j = nth_error l j.
-Proof. revert i j; induction l as [|z l IH]; intros [|i] [|j] N; cbn; try reflexivity; try congruence. apply IH. congruence. Qed.
-
-Lemma nth_upd_cases {A} i j (x y t : A) l :
-  nth_error l i = Some y -> nth_error (upd i x l) j = Some t -> (j = i /\ t = x) \/ (j <> i /\ nth_error l j = Some t).
-Proof.
-  intros Hi Hj. destruct (Nat.eq_dec j i) as [->|N].
-  - rewrite (nth_upd_same _ _ _ _ Hi) in Hj. left. split; congruence.
-  - right. split; [exact N|]. rewrite nth_upd_other in Hj by congruence. exact Hj.
-Qed.
-
-Lemma count_upd {A} (f : A -> bool) i (x y : A) l :
-  nth_error l i = Some y -> count f (upd i x l) + (if f y then 1 else 0) = count f l + (if f x then 1 else 0).
-Proof.
-  revert i; induction l as [|z l IH]; intros [|i] H; cbn in *; try discriminate.
-  - inversion H; subst. lia.
-  - specialize (IH _ H). lia.
-Qed.
-
-Lemma count_le {A} (f g : A -> bool) l : Forall (fun t => f t = true -> g t = true) l -> count f l <= count g l.
-Proof.
-  induction 1 as [|x l H _ IH]; cbn; [lia|]. destruct (f x) eqn:F; [rewrite (H eq_refl)|destruct (g x)]; lia.
-Qed.
-
-Lemma count_two {A} (f : A -> bool) l i j a b :
-  i <> j -> nth_error l i = Some a -> nth_error l j = Some b -> f a = true -> f b = true -> 2 <= count f l.
-Proof.
-  revert i j; induction l as [|z l IH]; intros [|i] [|j] N Hi Hj Fa Fb; cbn in *; try discriminate; try congruence.
-  - inversion Hi; subst. rewrite Fa. assert (1 <= count f l); [|lia].
-    clear -Hj Fb. revert j Hj; induction l as [|z l IH]; intros [|j] Hj; cbn in *; try discriminate.
-    + inversion Hj; subst. rewrite Fb. lia.
-    + specialize (IH _ Hj). lia.
-  - inversion Hj; subst. rewrite Fb. assert (1 <= count f l); [|lia].
-    clear -Hi Fa. revert i Hi; induction l as [|z l IH]; intros [|i] Hi; cbn in *; try discriminate.
-    + inversion Hi; subst. rewrite Fa. lia.
-    + specialize (IH _ Hi). lia.
-  - assert (2 <= count f l) by (apply (IH i j); congruence). lia.
-Qed.
-
-Lemma count_pos_exists {A} (f : A -> bool) l : 1 <= count f l -> exists i t, nth_error l i = Some t /\ f t = true.
-Proof.
-  induction l as [|x l IH]; cbn; [lia|]. destruct (f x) eqn:F.
-  - intros _. exists 0, x. split; [reflexivity|exact F].
-  - intros H. destruct IH as (i & t & Hi & Ft); [lia|]. exists (S i), t. split; assumption.
-Qed.
-
-Lemma count_zero_all {A} (f : A -> bool) l i t : count f l = 0 -> nth_error l i = Some t -> f t = false.
-Proof.
-  revert i; induction l as [|x l IH]; intros [|i] C H; cbn in *; try discriminate.
-  - inversion H; subst. destruct (f t); [lia|reflexivity].
-  - apply (IH i); [destruct (f x); lia|exact H].
-Qed.
-
-Lemma Forall_upd {A} (P : A -> Prop) i x l : Forall P l -> P x -> Forall P (upd i x l).
-Proof. intros H Px. revert i; induction H as [|y l Py Hl IH]; intros [|i]; cbn; try constructor; auto. Qed.
-
-Lemma Forall_nth {A} (P : A -> Prop) l i t : Forall P l -> nth_error l i = Some t -> P t.
-Proof. intros H. revert i; induction H as [|y l Py _ IH]; intros [|i] E; cbn in E; try discriminate; [inversion E; subst; exact Py|eauto]. Qed.
-
+(** ** lists (the generic lemmas on [count] / [upd] are in Base.Threads) *)
 Lemma proj_snoc i j f out : proj i (out ++ [(j, f)]) = proj i out ++ (if Nat.eqb j i then [f] else []).
 Proof. unfold proj. rewrite filter_app, map_app. cbn. destruct (Nat.eqb j i); reflexivity. Qed.
-
-Lemma count_snoc {A} (f : A -> bool) l x : count f (l ++ [x]) = count f l + (if f x then 1 else 0).
-Proof. induction l as [|y l IH]; cbn; [lia|]. rewrite IH. lia. Qed.
 
 Lemma msgs_snoc l f : msgs (l ++ [f]) = msgs l ++ msgs [f].
 Proof. unfold msgs. now rewrite flat_map_app. Qed.
@@ -216,9 +148,6 @@ Proof.
 Qed.
 
 (** ** the programs never change *)
-Lemma map_upd_same {A B} (f : A -> B) i x y l : nth_error l i = Some y -> f x = f y -> map f (upd i x l) = map f l.
-Proof. revert i; induction l as [|z l IH]; intros [|i] H E; cbn in *; try discriminate; [inversion H; subst; now rewrite E|f_equal; eauto]. Qed.
-
 Lemma wsstep_prog0 s i s' : wsstep s i = Some s' -> map t_prog0 (ws_thr s') = map t_prog0 (ws_thr s).
 Proof.
   unfold wsstep. destruct (nth_error (ws_thr s) i) as [t|] eqn:Ni; [|discriminate].
@@ -316,13 +245,6 @@ Definition tweight (t : wthread) : nat :=
   let n := List.length (t_prog t) in
   match t_pc t with WIdle => 4 * n | WHeld => 4 * n - 1 | WWriting | WUWriting => 4 * n - 2 | WWrote => 4 * n + 1 end.
 Definition weight (s : wsstate) : nat := list_sum (map tweight (ws_thr s)).
-
-Lemma sum_upd {A} (f : A -> nat) i x y l : nth_error l i = Some y -> list_sum (map f (upd i x l)) + f y = list_sum (map f l) + f x.
-Proof.
-  unfold list_sum. revert i; induction l as [|z l IH]; intros [|i] H; cbn [nth_error upd map fold_right] in *; try discriminate.
-  - inversion H; subst. lia.
-  - specialize (IH _ H). lia.
-Qed.
 
 Lemma wsstep_weight s i s' : wsinv s -> wsstep s i = Some s' -> S (weight s') <= weight s.
 Proof.
